@@ -6,10 +6,10 @@ import time
 
 from framework.checklib import CorrResult
 from harness import patcorr, subcorr
-from translator import t5_patterns
+from translator import t5_patterns, t21_subcircuit_alg
 
 ID = 'C04'
-TRANSLATORS = [t5_patterns.translate]
+TRANSLATORS = [t5_patterns.translate, t21_subcircuit_alg.translate]
 PROPERTY_FILE = 'Properties/C04.v'
 THEOREMS = ['C04_max_pattern', 'C04_complement_bits', 'C04_eval_pattern_den', 'C04_eval_pattern_unsupported',
             'C04_eval_pattern_short', 'C04_generate_inputs_tt', 'C04_patterns_are_truth_tables',
@@ -23,7 +23,8 @@ THEOREMS = ['C04_max_pattern', 'C04_complement_bits', 'C04_eval_pattern_den', 'C
             'C04_cex_surplus_operand', 'C04_example_ternary_and', 'C04_cex_missing_node', 'C04_example_cone', 'C04_example_simulation', 'C04_example_step_accepted', 'C04_example_step_rejected',
             'C04_example_care_set_step', 'C04_example_merge',
             'C04_check_run_structure', 'C04_validated_run', 'C04_validated_run_semantics', 'C04_validated_run_closed',
-            'C04_example_validated_run', 'C04_example_run_rejected']
+            'C04_example_validated_run', 'C04_example_run_rejected',
+            'C04_cone_code_regenerated', 'C04_example_regenerated_run']
 PARTIAL = {
     'C04 (the property as a whole)':
         'NOT proved for the implementation as a function: the search of minimize_subcircuits (external cut enumerator, the '
@@ -53,8 +54,10 @@ LEVEL_TEXT = ('translation validation of WHOLE RUNS with a verified validator, p
               'table (both exist). A run that check_run rejects while the oracle passes is reported as a disagreement. '
               'Besides: proved in Coq for '
               'the model (eval_pattern / max_pattern / _generate_inputs_tt regenerated from the current source by '
-              'translator t5, the simulation loops hand-written and compared with _get_subcircuits, _eval_dont_cares, '
-              'evaluate_truth_table_with_dont_cares on generated cones): for every cut size the patterns are the truth '
+              'translator t5; the simulation loops, _eval_dont_cares, evaluate_truth_table_with_dont_cares, the cut '
+              'filtering, _get_internal_gates and the output classification regenerated by translator t21 and proved '
+              'equal to the hand-written functions, C04_cone_code_regenerated; the hand model is also compared with '
+              '_get_subcircuits, _eval_dont_cares, evaluate_truth_table_with_dont_cares on generated cones): for every cut size the patterns are the truth '
               'tables of the cone nodes over the cut, the table given to the synthesiser is the cone function on the '
               'care rows, equal / complementary patterns mean equal / negated functions; the care-set substitution theorem '
               'for the function replace_subcircuit (C04_care_set_substitution: whenever replace_subcircuit c sub imap omap '
@@ -75,7 +78,20 @@ LEVEL_TEXT = ('translation validation of WHOLE RUNS with a verified validator, p
               'the end-to-end clauses are checked by brute force on every generated run and on the fixed corpus '
               '(harness/corpus/C04: minimal failing inputs of the defects repaired by fixes/D30..D39)')
 LEVEL_NOTE = ('Coq kernel + vm_compute; translator t5 (Python ast -> Gallina, N arithmetic; UnsupportedOperationError is '
-              'modelled as Err GenerationError); hand-written model of the simulation loops and of replace_subcircuit; '
+              'modelled as Err GenerationError); translator t21 (translator/t21_*.py, fixed prelude Model/SubcircuitPrims.v) '
+              'regenerates on every check, statement by statement, the per-cut simulation loop and the whole of '
+              '_get_subcircuits (sorting, cut filtering, node sets, _Subcircuit records), '
+              '_Subcircuit.evaluate_truth_table_with_dont_cares, _eval_dont_cares, _get_internal_gates and the '
+              'classification of the outputs of a subcircuit inside minimize_subcircuits into '
+              'Generated/SubcircuitAlgGen.v, and C04_cone_code_regenerated proves each equal to the hand model '
+              '(PatternSim.simulate_cone / cone_size / cone_outputs / tt_with_dont_cares / reachable_vectors; '
+              'Model/SubcircuitAlg.v for the parts that had no model); its trusted conventions: Python ints as N '
+              '(MAX_PATTERN - p truncates at 0), a set is the list of its distinct elements and its ITERATION order an '
+              'arbitrary function set_iter (the leaf order of a cut, a parameter of the hand model too), a read of a '
+              'defaultdict does not insert (accepted only where the key set is unobservable or under `k in d`), '
+              '`while` on fuel, objects as records; side conditions of the equalities: set_iter permutes, cuts without '
+              'repeated leaf and with at most cut_size leaves, distinct circuit inputs, fuel above the number of inputs '
+              'for _eval_dont_cares; hand-written model of the simulation loops and of replace_subcircuit; '
               'recorder that wraps Circuit.replace_subcircuit, Circuit.get_gate_users / remove_gate (calls made from the '
               'frame of minimize_subcircuits) and _Subcircuit.evaluate_truth_table_with_dont_cares from the harness '
               'process; the model is of the code repaired by fixes/D25.patch and fixes/D33.patch (cone outputs: circuit '
@@ -95,7 +111,8 @@ LEVEL_NOTE = ('Coq kernel + vm_compute; translator t5 (Python ast -> Gallina, N 
               'for the next state. Trusted for the run validation: the recorder (wrapper around minimize_subcircuits that dumps '
               'the argument at the entry and the result at the return; a replace_subcircuit call that raised, or whose result '
               'minimize_subcircuits discarded, is not an event), dump_circuit, the Coq term printer')
-TECHNIQUE = ('proof of the pattern simulation, of a step validator and of a whole-run validator (check_run) + translation '
+TECHNIQUE = ('regeneration of the pure parts of subcircuit.py from the source (t5, t21) with equality proofs against the hand '
+             'model; proof of the pattern simulation, of a step validator and of a whole-run validator (check_run) + translation '
              'validation of every replacement step and of every whole run end to end + end-to-end oracle')
 TRUSTED = ['hypotheses of C04_eval_pattern_den / C04_patterns_are_truth_tables, each witnessed necessary by a proved '
            'counterexample: (a) pattern_arity_ok: NOT has exactly one operand, GEQ/LT/LEQ/GT exactly two, the six n-ary '
